@@ -137,7 +137,7 @@ theorem KeysOK_prefix {c : Cfg} {a b : List Info} (h : KeysOK c b) (hp : a <+: b
   List.Nodup.sublist (((hp.sublist).map _).map _) h
 
 theorem JInv_step (c : Cfg) {J J' : JState} (ev : Ev) (inv : JInv c J) (h : jstep c J ev = .ok J')
-    (hside : isPause ev = true → SideOK c J'.q.added) (hkeys : KeysOK c J'.q.added) : JInv c J' := by
+    (hside : isPause ev = true → SideOK c J.q.added) (hkeys : KeysOK c J.q.added) : JInv c J' := by
   cases ev with
   | q op =>
     cases op with
@@ -166,10 +166,7 @@ theorem JInv_step (c : Cfg) {J J' : JState} (ev : Ev) (inv : JInv c J) (h : jste
           · cases h
           · rename_i hm hacq
             simp only [Except.ok.injEq] at h; subst h
-            have hs := hside rfl
-            simp only at hs
-            rw [(pause_some_fields m J.q (by omega)).1] at hs
-            exact (JInv_pause_some c m inv (by omega) (by omega) hs).1
+            exact (JInv_pause_some c m inv (by omega) (by omega) (hside rfl)).1
     | resume m =>
       cases m with
       | none =>
@@ -220,12 +217,11 @@ theorem JInv_run (c : Cfg) (evs : List Ev) {J J' : JState} (inv : JInv c J) (h :
   induction evs generalizing J with
   | nil => simp only [jrun, Except.ok.injEq] at h; subst h; exact inv
   | cons ev evs ih =>
+    have hp := jrun_mono c (ev :: evs) inv.q.wf h
     simp only [jrun] at h
     split at h
     · cases h
     · rename_i J1 hs
-      obtain ⟨hw1, _⟩ := jstep_mono c inv.q.wf hs
-      have hp := jrun_mono c evs hw1 h
       have inv1 : JInv c J1 := JInv_step c ev inv hs
         (fun hpz => SideOK_prefix (hside ⟨ev, List.mem_cons_self, hpz⟩) hp) (KeysOK_prefix hkeys hp)
       exact ih inv1 h (fun ⟨e, he, hz⟩ => hside ⟨e, List.mem_cons_of_mem _ he, hz⟩)
